@@ -15,7 +15,7 @@ FUNCTIONS_ENCODED = [
     'pgradd.ThermoChem.group_data:ThermochemGroupAdditive.get_HoRT_SE',
     'pgradd.ThermoChem.group_data:ThermochemGroupAdditive.get_SoR_SE',
 ]
-UQ_LIBS = ['GRWAqueous2018', 'GRWSurface2018', 'GuSolventGA2017Aq', 'GuSolventGA2017Vac', 'PtSurface2023']
+UQ_LIBS = ['GRWAqueous2018', 'GRWSurface2018', 'GuSolventGA2017Vac']   # the libraries whose library.yaml includes uq.yaml
 BOUNDS = {
     'quick': 'synthetic basis of 3 descriptors: concrete rational symmetric M with symbolic real counts and RMSE; symbolic '
              'symmetric M with <= 2 non-zero counts; scaling factor, mapping order and an out-of-basis descriptor symbolic; '
@@ -89,7 +89,7 @@ def _quad(M, x):
     acc = 0
     for i in range(len(x)):
         for j in range(len(x)):
-            if M[i][j] == 0 and not hasattr(M[i][j], 'var'):
+            if not hasattr(M[i][j], 'var') and M[i][j] == 0:
                 continue
             acc = acc + x[i] * M[i][j] * x[j]
     return acc
@@ -226,8 +226,6 @@ def h_shipped(d: bool):
         groups[names[i]] = x[i]
     sub = [[M[i][j] for j in idx] for i in idx]
     q = _quad(sub, [x[i] for i in idx])
-    if not (q >= 0):
-        return skip()
     rm = _Rmse()
     # the real library object; only its RMSE correlation is replaced by a symbolic one
     saved = lib.uq_contents['RMSE']
@@ -246,7 +244,9 @@ def h_shipped(d: bool):
         ok, lab = all_close([(rad, r * r * q)], ['radicand != RMSE^2 * x.M.x'])
     else:
         ok, lab = all_close([(v * v, r * r * q)], ['SE^2 != RMSE^2 * x.M.x'])
-    return finish(ok and v >= 0, lab)
+    if ok and q >= 0 and not (v >= 0):      # sign only where the radicand is non-negative
+        ok, lab = False, 'negative standard error'
+    return finish(ok, lab)
 
 
 def signature(ob, param, ret):
